@@ -295,7 +295,11 @@ def shrink_first_failure(res, judge, budget=200):
     p = _jsonable(p)                       # what the replay file will hold is what the shrinker works on
     res.oracle_failures[0] = (what, p)
     p["shrunk"] = False
-    if not isinstance(p.get("input"), list) or len(p["input"]) < 2 or p.get("no_shrink"):
+    if not isinstance(p.get("input"), list) or p.get("no_shrink"):
+        return
+    if len(p["input"]) < 2:                # nothing to remove
+        p.update(shrunk=True, shrink={"from": len(p["input"]), "to": len(p["input"]), "oracle_calls": 0},
+                 input_unshrunk=list(p["input"]))
         return
     par = [k for k in p.get("parallel", []) if isinstance(p.get(k), list) and len(p[k]) == len(p["input"])]
     items = list(zip(p["input"], *[p[k] for k in par]))
@@ -355,14 +359,15 @@ def replay_failure(prop_id, payload, judge):
     if isinstance(inp, list):
         was = p.get("input_unshrunk")
         print("replay:   input: %d item(s)%s" % (len(inp), (" (%d before shrinking)" % len(was)) if p.get("shrunk") and was else ""))
-        for x in inp:
-            print("replay:     %s" % _show(x))
+        tagged = [k for k in p.get("parallel", []) if k != "records" and isinstance(p.get(k), list) and len(p[k]) == len(inp)]
+        for i, x in enumerate(inp):
+            print("replay:     %s%s" % (_show(x), "".join("   [%s=%s]" % (k, _show(p[k][i], 60)) for k in tagged)))
     elif inp is not None:
         print("replay:   input = %s" % _show(inp))
     if p.get("details"):
         print("replay:   recorded details: %s" % _show(p["details"], 1200))
     got = judge(p)
-    res.evaluations = got.evaluations
+    res.evaluations = max(1, got.evaluations)
     same = [(w, fp) for w, fp in got.oracle_failures if same_failure(fp, p)]
     other = [(w, fp) for w, fp in got.oracle_failures if not same_failure(fp, p)]
     for key, ex in got.known_hits.items():
